@@ -111,6 +111,9 @@ theorem splitLastColon_append (a b : Bytes) (hb : ∀ c ∈ b, (c != 0x3a) = tru
 def EndsInColonNumber (f : Bytes) : Prop :=
   (splitLastColon f).bind (fun p => (parseUint p.2).map (fun n2 => (p.1, n2))) ≠ none
 
+instance (f : Bytes) : Decidable (EndsInColonNumber f) := by
+  unfold EndsInColonNumber; infer_instance
+
 /-- The directive text cl prints for statements and functions, `//line <f>:<L>:1`, is read back
 as (f, L) for EVERY file name. -/
 theorem C09_directive_roundtrip (f : Bytes) (l : Nat) (h0 : 0 < l) (h1 : l ≤ maxLineCol) :
@@ -125,7 +128,8 @@ theorem C09_directive_roundtrip (f : Bytes) (l : Nat) (h0 : 0 < l) (h1 : l ≤ m
   simp only [p1, s2, Option.bind_some, parseUint_digits, Option.map_some]
   have : ¬ (l = 0) := by omega
   have h1' : ¬ (l > maxLineCol) := by omega
-  simp [this, h1', maxLineCol]
+  have hm : ¬ (maxLineCol = 0) := by decide
+  simp [this, h1', hm]
 
 /-- The column-less form `//line <f>:<L>` (shadow entry `main`) is read back as (f, L) unless the
 file name itself ends in `:<number>`. -/
@@ -149,6 +153,196 @@ theorem C09_directive_roundtrip_nocol (f : Bytes) (l : Nat) (h0 : 0 < l) (h1 : l
 theorem C09_nocol_misread_witness :
     parseDirBody ([0x61, 0x3a, 0x33] ++ [0x3a] ++ digits 7) = some ([0x61], 3, some 7) ∧
     EndsInColonNumber [0x61, 0x3a, 0x33] := by
+  decide
+
+/-! ### positions in an emitted layout -/
+
+theorem scan_append (xs ys : List Line) (j : Nat) (cur : Cur) :
+    scan (xs ++ ys) j cur = scan ys (j + xs.length) (scan xs j cur) := by
+  induction xs generalizing j cur with
+  | nil => simp [scan]
+  | cons x t ih =>
+    simp only [List.cons_append, scan, List.length_cons]
+    rw [ih]
+    congr 1
+    omega
+
+theorem scan_notDirective (xs : List Line) (j : Nat) (cur : Cur)
+    (h : ∀ l ∈ xs, NotDirective l) : scan xs j cur = cur := by
+  induction xs generalizing j cur with
+  | nil => rfl
+  | cons x t ih =>
+    have hx : step cur j x = cur := by
+      unfold step
+      rw [h x (by simp) cur.file]
+    simp only [scan, hx]
+    exact ih _ _ (fun l hl => h l (by simp [hl]))
+
+def dirLine (f : Bytes) (l : Nat) (c : Bool) : Line := ⟨render f l c, false⟩
+
+theorem drop7_render (f : Bytes) (l : Nat) (c : Bool) :
+    (render f l c).drop 7 = f ++ [0x3a] ++ digits l ++ (if c then [0x3a, 0x31] else []) := by
+  unfold render linePrefix
+  simp
+
+/-- The last byte of a rendered directive is a digit, never '\r'. -/
+theorem stripCR_render (f : Bytes) (l : Nat) (c : Bool) :
+    stripCR ((render f l c).drop 7) = (render f l c).drop 7 := by
+  rw [drop7_render]
+  unfold stripCR
+  cases c with
+  | true =>
+    simp only [if_true, List.reverse_append, List.reverse_cons, List.reverse_nil, List.nil_append,
+      List.cons_append]
+    split
+    · rename_i r heq
+      injection heq with h1 _
+      exact absurd h1 (by decide)
+    · rfl
+  | false =>
+    simp only [Bool.false_eq_true, if_false, List.append_nil, List.reverse_append]
+    unfold digits
+    rw [List.reverse_reverse]
+    have : ∃ d t, digitsLE (l + 1) l = d :: t ∧ isDigit d = true := by
+      have hall := digitsLE_all (l + 1) l
+      cases hdl : digitsLE (l + 1) l with
+      | nil => exact absurd hdl (digitsLE_ne_nil l l)
+      | cons d t =>
+        rw [hdl] at hall
+        simp only [List.all_cons, Bool.and_eq_true] at hall
+        exact ⟨d, t, rfl, hall.1⟩
+    obtain ⟨d, t, hdt, hdig⟩ := this
+    rw [hdt]
+    simp only [List.cons_append]
+    split
+    · rename_i r heq
+      injection heq with h1 _
+      subst h1
+      exact absurd hdig (by decide)
+    · rfl
+
+theorem dirOf_render (cur : FileRef) (f : Bytes) (l : Nat) (c : Bool) (hf : f ≠ [])
+    (h0 : 0 < l) (h1 : l ≤ maxLineCol) (hc : c = false → ¬ EndsInColonNumber f) :
+    dirOf cur (dirLine f l c) = some (.named f, l) := by
+  have hp : linePrefix.isPrefixOf (render f l c) = true := by
+    unfold render
+    rw [List.append_assoc, List.append_assoc]
+    exact List.isPrefixOf_iff_prefix.mpr (List.prefix_append _ _)
+  have hfe : f.isEmpty = false := by
+    cases f with
+    | nil => exact absurd rfl hf
+    | cons _ _ => rfl
+  unfold dirOf dirLine
+  simp only [Bool.false_eq_true, if_false, hp, if_true]
+  rw [stripCR_render, drop7_render]
+  cases c with
+  | true =>
+    have := C09_directive_roundtrip f l h0 h1
+    simp only [if_true]
+    rw [this]
+    simp [hfe]
+  | false =>
+    have := C09_directive_roundtrip_nocol f l h0 h1 (hc rfl)
+    simp only [Bool.false_eq_true, if_false, List.append_nil]
+    rw [this]
+    simp [hfe]
+
+/-- File names the emitter may use: non-empty, and (for the column-less form) not ending in `:number`. -/
+def GoodFile (f : Bytes) : Prop := f ≠ [] ∧ ¬ EndsInColonNumber f
+
+def GoodLine (l : Nat) : Prop := 0 < l ∧ l ≤ maxLineCol
+
+theorem flatten_layout (f : Bytes) (pre : List Item) (txt : List Line) (post : List Item)
+    (L : Nat) (c : Bool) :
+    flatten f (pre ++ [.dir L c] ++ txt.map .text ++ post) =
+      flatten f pre ++ dirLine f L c :: (txt ++ flatten f post) := by
+  unfold flatten dirLine
+  simp [flattenItem, Function.comp_def]
+
+theorem take_layout (A : List Line) (d : Line) (T B : List Line) (r : Nat) (hr : r ≤ T.length) :
+    (A ++ d :: (T ++ B)).take (A.length + 1 + r) = A ++ d :: T.take r := by
+  rw [List.take_append]
+  have h1 : A.take (A.length + 1 + r) = A := List.take_of_length_le (by omega)
+  have h2 : A.length + 1 + r - A.length = r + 1 := by omega
+  rw [h1, h2, List.take_succ_cons, List.take_append_of_le_length hr]
+
+/-- Core of both theorems: after the directive of a statement written at line `L`, the `r`-th
+following physical line (r = 0: the line right after the directive) has position (file, L + r),
+provided the `r` text lines in between are not read as directives. -/
+theorem posFor_after_dir (f : Bytes) (A : List Line) (T B : List Line) (L : Nat) (c : Bool) (r : Nat)
+    (hf : GoodFile f) (hL : GoodLine L) (hT : ∀ l ∈ T.take r, NotDirective l) (hr : r ≤ T.length) :
+    posFor (A ++ dirLine f L c :: (T ++ B)) (A.length + 2 + r) = (.named f, L + r) := by
+  unfold posFor
+  have e : A.length + 2 + r - 1 = A.length + 1 + r := by omega
+  rw [e, take_layout A _ T B r hr]
+  have e2 : A ++ dirLine f L c :: T.take r = A ++ ([dirLine f L c] ++ T.take r) := by simp
+  rw [e2, scan_append, scan_append, scan_notDirective (T.take r) _ _ hT]
+  simp only [scan]
+  unfold step
+  rw [dirOf_render _ f L c hf.1 hL.1 hL.2 (fun _ => hf.2)]
+  simp
+  omega
+
+/-- C09 kernel: in any layout where the `i`-th emitted line (0-based) is the directive of a
+statement / function written at source line `L`, the physical line right after it has position
+(file, L) — whatever precedes or follows. -/
+theorem C09_stmt_first_line_partial (f : Bytes) (pre post : List Item) (L : Nat) (c : Bool)
+    (hf : GoodFile f) (hL : GoodLine L) :
+    posFor (flatten f (pre ++ [.dir L c] ++ post)) (pre.length + 2) = (.named f, L) := by
+  have h := flatten_layout f pre [] post L c
+  simp only [List.map_nil, List.append_nil, List.nil_append] at h
+  rw [h]
+  have hl : (flatten f pre).length = pre.length := by unfold flatten; simp
+  have := posFor_after_dir f (flatten f pre) [] (flatten f post) L c 0 hf hL (by simp) (by simp)
+  simpa [hl] using this
+
+/-- …and the `r`-th following line has source line `L + r`, as long as the `r` lines in between are
+program text that is not read as a directive (a statement that keeps its line breaks keeps its
+line numbers). -/
+theorem C09_stmt_lines_partial (f : Bytes) (pre : List Item) (txt : List Line) (post : List Item)
+    (L : Nat) (c : Bool) (r : Nat) (hf : GoodFile f) (hL : GoodLine L)
+    (htxt : ∀ l ∈ txt, NotDirective l) (hr : r ≤ txt.length) :
+    posFor (flatten f (pre ++ [.dir L c] ++ txt.map .text ++ post)) (pre.length + 2 + r) =
+      (.named f, L + r) := by
+  rw [flatten_layout]
+  have hl : (flatten f pre).length = pre.length := by unfold flatten; simp
+  have := posFor_after_dir f (flatten f pre) txt (flatten f post) L c r hf hL
+    (fun l hl => htxt l (List.mem_of_mem_take hl)) hr
+  simpa [hl] using this
+
+/-- Function entry: the directive carries the line `Ld` of the doc comment; the `n` physical lines
+of the comment follow; the `func` line then has position `Ld + n`, which is the source line of the
+`func` keyword when the doc comment is contiguous with the declaration (as Go requires of a doc
+comment) and none of its lines is itself a `//line` directive. -/
+theorem C09_func_entry_partial (f : Bytes) (pre : List Item) (doc : List Line) (funcLine : Line)
+    (post : List Item) (Ld : Nat) (c : Bool) (hf : GoodFile f) (hL : GoodLine Ld)
+    (hdoc : ∀ l ∈ doc, NotDirective l) :
+    posFor (flatten f (pre ++ [.dir Ld c] ++ (doc ++ [funcLine]).map .text ++ post))
+      (pre.length + 2 + doc.length) = (.named f, Ld + doc.length) := by
+  have hfl : flatten f (pre ++ [.dir Ld c] ++ (doc ++ [funcLine]).map .text ++ post) =
+      flatten f (pre ++ [.dir Ld c] ++ doc.map .text ++ (.text funcLine :: post)) := by
+    unfold flatten; simp
+  rw [hfl]
+  exact C09_stmt_lines_partial f pre doc (.text funcLine :: post) Ld c doc.length hf hL hdoc (Nat.le_refl _)
+
+/-! ### Non-vacuity -/
+
+def asc (cs : List Char) : Line := ⟨cs.map (fun c => UInt8.ofNat c.toNat), false⟩
+def exFile : Bytes := [0x61, 0x2e, 0x78, 0x67, 0x6f]   -- "a.xgo"
+
+example : GoodFile exFile ∧ GoodLine 7 := ⟨⟨by decide, by decide⟩, by decide, by decide⟩
+example : NotDirective (asc ['\t', 'm', 'a', 'r', 'k', '(', '1', ')']) := by intro cur; rfl
+example : NotDirective (asc ['/', '/', ' ', 'd', 'o', 'c']) := by intro cur; rfl
+
+def exLayout : List Item :=
+  [.text (asc ['p', 'a', 'c', 'k', 'a', 'g', 'e', ' ', 'm']), .dir 3 true, .text (asc ['/', '/', ' ', 'd', 'o', 'c']),
+   .text (asc ['f', 'u', 'n', 'c', ' ', 'f', '(', ')', ' ', '{']), .dir 9 true,
+   .text (asc ['\t', 'm', 'a', 'r', 'k', '(', '1', ')']), .text (asc ['}'])]
+
+/-- func directive (line of the doc comment), doc comment, `func` line → 4; statement → 9. -/
+example : posFor (flatten exFile exLayout) 4 = (.named exFile, 4)
+    ∧ posFor (flatten exFile exLayout) 6 = (.named exFile, 9)
+    ∧ posFor (flatten exFile exLayout) 1 = (.phys, 1) := by
   decide
 
 end GopModel.LineDir
